@@ -31,7 +31,7 @@ def work(h):
     finally:
         with cond:
             slots.append(slot); budget[0] += need; cond.notify_all()
-sel.sort(key=lambda h: -h["t"])
+sel.sort(key=lambda h: (h["t"], h["mem"])) if os.environ.get("BATCH_ASC") else sel.sort(key=lambda h: -h["t"])
 with cf.ThreadPoolExecutor(max_workers=10) as ex:
     for fut in cf.as_completed([ex.submit(work, h) for h in sel]):
         r = fut.result()
